@@ -149,11 +149,10 @@ void cc_dynamic_pool_destroy(CC_DynamicPool* pool)
 void cc_dynamic_pool_reset(CC_DynamicPool* pool)
 {
     PageInfo* top_page = (PageInfo*)pool->page;
-    PageInfo* del_page = top_page->previous;
     
-    while (del_page) {
-        top_page = del_page;
-        del_page = top_page->previous;
+    while (top_page->previous) {
+        PageInfo* del_page = top_page;
+        top_page = top_page->previous;
         pool->mem_free(del_page);
     }
     pool->page          = (uint8_t*) top_page;
